@@ -390,6 +390,12 @@ class StateRun(object):
         parts = ['%d' % c.id, c.status]
         if c.status != 'LAUNCHED' and c.path:
             parts.append(','.join(r.longname('~' if i % 2 == 0 else '=') for i, r in enumerate(c.path)))
+            if c.status in ('EXTENDED', 'BUILT') and not reason and self.prop == 'C07' and self.ch is not None and \
+                    self.ch.chance(1, 10, 'barecirc'):
+                # every keyword field of a CIRC event is optional (control-spec 4.1.1): a bare "id status path" line says
+                # what it says - status and path - and carries no keywords
+                self.sim.probe('circ-event-without-keywords')
+                return ' '.join(parts)
         parts.append('BUILD_FLAGS=' + ','.join(c.build_flags))
         parts.append('PURPOSE=' + c.purpose)
         parts.append('TIME_CREATED=2026-01-01T00:00:%02d.000000' % (c.id % 60))
